@@ -474,6 +474,10 @@ def near_traces(res, trace_a, trace_b, cfg_a, cfg_b, prop=None):
             raise
 
 
+# trace specifications whose rejected event can be re-executed on its own (or re-recorded deterministically)
+EVENT_REPLAY_MODULES = ("Trace_Lanes", "Trace_Poly", "Trace_Rel", "Trace_C17", "Trace_C06")
+
+
 def validate_trace(res, module, trace, label, prop=None, env_name="TRACE", cfg=None, case_extra=None):
     """Code -> spec direction: TLC consumes a trace recorded from the real code; rejection is a violation."""
     out = os.path.join(WORK, res.prop, f"{module}.{label}.out")
@@ -490,7 +494,7 @@ def validate_trace(res, module, trace, label, prop=None, env_name="TRACE", cfg=N
         if "TRACE-REJECTED" in txt:
             case = {"fam": "trace", "module": module, "trace": trace}
             m = re.search(r'<<"FIRST-REJECTED-EVENT", ("\{.*\}")>>', txt)
-            if m:
+            if m and module in EVENT_REPLAY_MODULES:
                 try:
                     case = {"fam": "event", "module": module, "event": json.loads(json.loads(m.group(1))), "cfg": cfg or label}
                     case.update(case_extra or {})
@@ -607,6 +611,19 @@ def replay_dispatch(res, path, binname, only=None, env_keys=("ty",)):
     binname = BIN_OF_FAM.get(fam, binname)
     if fam == "event":
         return replay_event(res, path)
+    if fam == "trace":
+        # a recorded execution that the specification rejected: judge the stored recording again (a fresh recording is made by the check itself)
+        case = mm["case"]
+        if not os.path.exists(case["trace"]):
+            print("replay: the recorded trace is gone; run the check again")
+            return EXIT_OK
+        validate_trace(res, case["module"], case["trace"], "replay")
+        if res.mismatches:
+            print(res.mismatches[0]["what"][:800])
+            print(f"VIOLATION property={res.prop} replay={path}")
+            return EXIT_VIOLATION
+        print("replay: the specification accepts the recorded trace")
+        return EXIT_OK
     if fam == "crash":
         case, cfg = mm["case"], mm.get("cfg", "sse2")
         build_all([cfg], [case["bin"]])
